@@ -164,12 +164,40 @@ class Cluster:
                     o.fields[f] = it.fresh(t, f"{nm}.{f}")
             for f, t in self.spec.fields.get(cd.name, {}).items():
                 src = self.spec.init.get(cd.name, {}).get(f)
+                real = self.ctor_literal(cd, f)
+                if real is not None:
+                    src = real       # what the real constructor stores wins over the declared default
                 if src is None:
                     raise OutOfSubset(f"no initial value declared for {cd.name}.{f}")
                 o.fields[f] = self.initial_value(it, src, t)
         g = objs["ghost"]
         for f, (t, src) in self.spec.ghost.items():
             g.fields[f] = self.initial_value(it, src, t)
+
+    def ctor_literal(self, cd, field):
+        """source text of the value the real constructor (with the helpers it calls on self) stores into self.<field>, when
+        that is a literal or an empty container; None if the constructor does not set the field that way (the declared
+        initial value of the cluster spec is used then, e.g. for fields that only outputs ever assign)"""
+        found = None
+        for m in ctor_closure(cd.node):
+            for st in ast.walk(m):
+                if isinstance(st, ast.Assign) and len(st.targets) == 1 and isinstance(st.targets[0], ast.Attribute) \
+                        and isinstance(st.targets[0].value, ast.Name) and st.targets[0].value.id == "self" \
+                        and st.targets[0].attr == field:
+                    v = st.value
+                    ok = isinstance(v, ast.Constant) or \
+                        (isinstance(v, (ast.Dict, ast.List, ast.Set, ast.Tuple)) and not getattr(v, "keys", None) and
+                         not getattr(v, "elts", None)) or \
+                        (isinstance(v, ast.Call) and not v.args and not v.keywords and
+                         ast.unparse(v.func) in ("set", "dict", "list", "deque", "collections.deque"))
+                    if not ok:
+                        return None
+                    found = ast.unparse(v)
+                    if found in ("dict()",):
+                        found = "{}"
+                    if found in ("list()", "deque()", "collections.deque()"):
+                        found = "[]"
+        return found
 
     def initial_value(self, it, src, t):
         v = it.eval(ast.parse(src, mode="eval").body, Frame(None, None))
